@@ -492,10 +492,16 @@ KF_FILE = os.path.join(VERIF, "known_findings.jsonl")
 
 def load_known_findings(prop):
     out = []
-    if os.path.exists(KF_FILE):
-        for rec in read_ndjson(KF_FILE):
-            if rec.get("property") == prop and rec.get("status", "open") == "open":
-                out.append(rec)
+    files = [KF_FILE]
+    # per-property fragments used while a check is being developed; merged into KF_FILE on integration
+    frag = os.path.join(VERIF, "known_findings.d", prop + ".jsonl")
+    if os.path.exists(frag):
+        files.append(frag)
+    for fn in files:
+        if os.path.exists(fn):
+            for rec in read_ndjson(fn):
+                if rec.get("property") == prop and rec.get("status", "open") == "open":
+                    out.append(rec)
     return out
 
 
